@@ -367,7 +367,13 @@ MATCH_SENTENCE = {
 
 
 def _sc3_match_func():
+    """The matcher the pattern dispatcher really calls."""
     from sc3.base import responders as rpd
+    names = rpd.OscMessagePatternDispatcher.__call__.__code__.co_names
+    if '_match_osc_address_pattern' not in names:
+        raise RuntimeError('OscMessagePatternDispatcher.__call__ no longer '
+                           'uses responders._match_osc_address_pattern: %r'
+                           % (names,))
     return rpd._match_osc_address_pattern
 
 
@@ -1921,8 +1927,8 @@ def _disp_run_history(hs, item):
                 elif o == 'perm':
                     m = model[op[1]]
                     resp[op[1]].permanent = True
-                    m.permanent = True if (m.enabled and m.permanent is not
-                                           'unknown') else 'unknown'
+                    m.permanent = True if (m.enabled and
+                                           m.permanent != 'unknown') else 'unknown'
                 elif o == 'cmdperiod':
                     rt.sac.CmdPeriod.run()
                     for m in model:
@@ -1979,13 +1985,14 @@ def _disp_compare(hs, item, step, model, q, variant, obs, t0, t1, sender, port):
             if k is not c and k.kill == c.rid and not _before(c, k):
                 optional.add(c.rid)
     must = [c for c in cands if c.rid not in optional]
-    removal = any(c.oneshot != 'no' or c.kill is not None for c in cands)
     exp_desc = {'must': [c.rid for c in must], 'optional': sorted(optional)}
     obs_desc = [[e[0], e[1]] for e in obs]
     byrid = {}
     for e in obs:
         byrid.setdefault(e[0], []).append(e)
     what0 = 'history %r, message %d: ' % (item[1], step)
+    removal = any(c.rid in byrid and (c.oneshot != 'no' or c.kill is not None)
+                  for c in cands)
     for rid, es in byrid.items():
         m = model[rid]
         if rid in why_not:
@@ -2000,17 +2007,23 @@ def _disp_compare(hs, item, step, model, q, variant, obs, t0, t1, sender, port):
                               'times' % (rid, len(es)), item, obs_desc, exp_desc)
     for c in must:
         if c.rid not in byrid:
-            if removal:
+            tm = [x for x in model if x.kind == 'tmpl' and x.enabled
+                  and not x.unspec and x.path == q]
+            if variant == 'noargs' and tm:
+                key = 'template-short-message'
+            elif removal:
                 key = 'skip-after-self-removal' + (
                     '-matching' if c.disp == 'match' else '')
-            elif variant == 'noargs' and any(
-                    x.kind == 'tmpl' and x.enabled and not x.unspec for x in model):
-                key = 'template-short-message'
             else:
                 key = 'not-invoked'
-            return _disp_viol(key, what0 + 'enabled responder %d (%s %s), '
-                              'untouched during this dispatch, was not invoked'
-                              % (c.rid, c.kind, c.path), item, obs_desc, exp_desc)
+            v = _disp_viol(key, what0 + 'enabled responder %d (%s %s), '
+                           'untouched during this dispatch, was not invoked'
+                           % (c.rid, c.kind, c.path), item, obs_desc, exp_desc)
+            if key == 'template-short-message' and c.disp == 'match':
+                # whether the matching dispatcher runs before or after the
+                # exact one is arbitrary: keep the deterministic cases first
+                v['size'] += 100
+            return v
     exp_msg = [q] + ([] if variant == 'noargs' else [2 if variant == 'arg2' else 1])
     for e in obs:
         rid, tag, msg, tm, addr, rport = e
@@ -2128,10 +2141,10 @@ _ROLE_RUN['dispatch'] = _disp_run
 
 def check_dispatch(rep):
     if rep.tier == 'thorough':
-        cfg = {'exh_len': 4, 'random': [(600000, 5), (200000, 6), (100000, 7)],
+        cfg = {'exh_len': 5, 'random': [(300000, 6), (100000, 7)],
                'udp_n': 20000}
     else:
-        cfg = {'exh_len': 3, 'random': [(60000, 4), (60000, 5), (10000, 6)],
+        cfg = {'exh_len': 4, 'random': [(80000, 5), (20000, 6)],
                'udp_n': 1500}
     cfg['seed'] = rep.rng.randrange(1 << 30)
     res = _run_pool('dispatch', cfg)
